@@ -1,5 +1,6 @@
 mod conc;
 mod contains;
+mod ffi;
 mod gen;
 mod hist;
 mod lang;
@@ -1228,6 +1229,39 @@ fn main() {
         }
         "gen-conc" => {
             gen_conc(&a);
+            0
+        }
+        "gen-ffi" => {
+            let seed: u64 = a.get("seed").and_then(|s| s.parse().ok()).unwrap_or(1);
+            let n: usize = a.get("n").and_then(|s| s.parse().ok()).unwrap_or(4);
+            let steps: usize = a.get("steps").and_then(|s| s.parse().ok()).unwrap_or(60);
+            let out = a.get("out").cloned().unwrap_or_else(|| ".".into());
+            quiet_panics();
+            // install the catcher's hook once, before any thread exists (its first installation is racy)
+            wirefilter_ffi::panic::wirefilter_set_panic_catcher_hook();
+            // n rounds of 4 concurrent threads, one session each; per-thread sequence numbers order the events
+            let mut evs: Vec<Value> = Vec::new();
+            let mut id = 0u64;
+            for round in 0..n {
+                let hs: Vec<_> = (0..4usize).map(|t| {
+                    let sd = seed * 1000 + (round * 4 + t) as u64;
+                    std::thread::spawn(move || {
+                        let mut r = rng_from(sd);
+                        ffi::random_session(&mut r, round * 4 + t + 1, steps)
+                    })
+                }).collect();
+                for h in hs {
+                    for mut e in h.join().unwrap() {
+                        e["id"] = json!(id);
+                        id += 1;
+                        evs.push(e);
+                    }
+                }
+            }
+            write_ndjson::<Value>(&format!("{out}/schemes.ndjson"), &[]);
+            write_ndjson::<Value>(&format!("{out}/ctxs.ndjson"), &[]);
+            write_ndjson(&format!("{out}/trace.ndjson"), &evs);
+            println!("{}", serde_json::to_string(&json!({"events": evs.len()})).unwrap());
             0
         }
         "gen-types" => {
